@@ -7,6 +7,10 @@ from vf.ref import base58_ref as R
 from vf.runner import Acc, filler
 
 PROPERTY = "C07"
+# E6: seq_ops() indices of the operations that are interrupted at every line (vf/seqexplore.interrupted); probes = the whole alphabet
+INTERRUPT_X = [2, 4]
+INTERRUPT_PROBES = None
+CONCUR_FILES = ('bits/base58.py',)
 LEVEL = "exploration"
 RULE = ("bounded-exhaustive: every byte string of length 0..2, every string of length 3..4 over "
         "{00,01,39,3a,7f,80,ff}, lengths 5..128 x leading zeros x boundary bodies; every Base58 string of "
@@ -18,6 +22,7 @@ ASSUMPTIONS = ["reference base58 (long division on digit lists) in vf/ref/base58
                "it is checked against the doctest literals of the repository in the selftest"]
 OBLIGATIONS = {
     "long_history": "operations executed in one long history (>= 1000 distinct operations, forward / forward / reverse)",
+    "interrupted_calls": "interruption points explored (an earlier call cut short by an asynchronous exception, then ordinary calls)",
     "history_sequences": "operation sequences (non-initial process states) explored",
     "concurrent_calls": "interleavings of two concurrent check-decodes (cold and after sequential warm-up decodes)",
     "empty_input": "the empty byte string / empty Base58 string was encoded/decoded",
@@ -133,6 +138,9 @@ def run_case(kind, case):
         from vf import concur
         calls, warm, judge = _concur_setup(case)
         return concur.replay_calls(calls, ("bits/base58.py",), case["choices"], judge, warmup=warm)
+    if kind == "interrupted":
+        from vf import seqexplore
+        return seqexplore.replay_interrupted(run_case, case)
     if kind == "seq":
         from vf import seqexplore
         return seqexplore.replay(run_case, case)
@@ -300,6 +308,8 @@ def jobs(tier, seed):
     js += seq_jobs(2, weight=2)
     from vf.runner import long_jobs
     js += long_jobs()
+    from vf.runner import interrupt_jobs
+    js += interrupt_jobs(len(INTERRUPT_X))
     for i in range(4):
         js.append({"name": f"concurrent-decode/{i}", "part": "concur", "kind": "concur", "idx": i, "weight": 4})
     return js
@@ -309,6 +319,11 @@ def run_job(job):
     if job["part"] == "longhist":
         from vf.runner import run_long_job, default_long_ops
         return run_long_job(job, default_long_ops(seq_ops, job), run_case)
+    if job["part"] == "interrupted":
+        from vf.runner import run_interrupt_job
+        ops = [o for o in seq_ops(dict(job, part="interrupted", shard=[0, 1]))]
+        probes = ops if INTERRUPT_PROBES is None else [ops[i] for i in INTERRUPT_PROBES]
+        return run_interrupt_job(job, [ops[i] for i in INTERRUPT_X], probes, run_case, CONCUR_FILES)
     if job["part"] == "seq":
         from vf.runner import run_seq_job
         return run_seq_job(job, seq_ops(job), run_case, depth=3 if job["tier"] == "quick" else 4)
